@@ -37,6 +37,21 @@ def gen_seasons(y0, y1):
             yield ev
 
 
+def gen_far_years():
+    """'other years raise ValueError': also years far outside the range, up to integers no float can hold"""
+    from pymeeus.Sun import Sun
+    far = [3001, 3002, 5000, 10 ** 4, 10 ** 6, 2 ** 31, 2 ** 53 + 1, 2 ** 64, 10 ** 30, 10 ** 308, 2 ** 1024, 10 ** 309, 10 ** 400]
+    for y in far + [-v for v in far] + [-1001, -1002]:
+        for k, name in enumerate(SEASONS):
+            ev = {"k": "season", "y": 99999 if y > 0 else -99999, "kq": k, "inr": 0, "yrepr": repr(y)[:40], "r": BAD, "lon": BAD, "rf": 0.0}
+            try:
+                Sun.get_equinox_solstice(y, name)
+                ev["oc"] = "ok"
+            except Exception as ex:
+                ev["oc"] = _oc(ex)
+            yield ev
+
+
 def gen_eot(y0, ndays):
     """daily equation of time from 1 January of year y0 (0h TT) on"""
     from pymeeus.Epoch import Epoch
